@@ -25,6 +25,9 @@ EXHAUSTIVE = {"quick": True, "thorough": True}
 CHUNK = 4
 
 
+TOKEN_MEANING = {"1000ft3": (1000.0, "ft", 3), "1000m3": (1000.0, "m", 3), "M(ft3)": (1e6, "ft", 3), "M(m3)": (1e6, "m", 3), "k(ft3)": (1000.0, "ft", 3)}
+
+
 def derive_spellings(db, double=False):
     from barril.units.unit_database import _LEGACY_TO_CURRENT, FixUnitIfIsLegacy
 
@@ -64,6 +67,10 @@ def items(tier, seed):
     for i in range(0, len(units), 100):
         out.append({"k": "fixedpoints", "units": units[i:i + 100]})
     out.append({"k": "spelling_count", "n": len(out)})
+    from barril.units.unit_database import _LEGACY_TO_CURRENT
+
+    for legacy, current in _LEGACY_TO_CURRENT:
+        out.append({"k": "token_meaning", "legacy": legacy, "current": current})
     out[0]["canary"] = True
     random.Random(seed).shuffle(out)
     return out
@@ -83,6 +90,16 @@ def run(cfg, V):
         return {"bad": bad}
     if cfg["k"] == "spelling_count":
         return {"n": cfg["n"]}
+    if cfg["k"] == "token_meaning":
+        # what a legacy token SPELLS OUT (a number times a power of a table unit), held here independently of the substitution list
+        meaning = TOKEN_MEANING.get(cfg["legacy"])
+        db = get_db("default")
+        U = db.unit_to_unit_info
+        if meaning is None or cfg["current"] not in U or meaning[1] not in U:
+            return {"skip": True, "known_token": meaning is not None}
+        mult, unit, power = meaning
+        one = U[unit].tobase(1.0) - U[unit].tobase(0.0)
+        return {"skip": False, "current": U[cfg["current"]].tobase(x), "spelled": x * (mult * one ** power), "same_type": True}
     u, sp = cfg["u"], cfg["sp"]
     db = fresh_posc_db()
     with pushed(db):
@@ -147,6 +164,11 @@ def run(cfg, V):
         lst = [sp]
         i3 = db.AddCategory("c16_c", qt, valid_units=lst)
         o["addcat"] = (i1.default_unit, list(i1.valid_units), i2.default_unit, list(i2.valid_units), i3.default_unit, list(i3.valid_units), [u] + other, base)
+        # the value-less form in a legacy-spelled unit, for a category whose default value is NOT zero
+        db.AddCategory("c16_d", qt, default_unit=base, default_value=x)
+        sd1, sd2 = Scalar("c16_d", unit=sp), Scalar("c16_d", unit=u)
+        fd1, fd2 = FractionScalar("c16_d", unit=sp), FractionScalar("c16_d", unit=u)
+        o["default_in_legacy"] = (sd1 == sd2 and fd1 == fd2 and sd1.GetUnit() == u, sd1.GetValue(), Scalar(ObtainQuantity(sp, "c16_d")).GetValue())
         o["addcat_use"] = Scalar("c16_a").GetUnit() == u and Scalar(x, sp, "c16_b") == Scalar(x, u, "c16_b") and u in db.GetValidUnits("c16_c")
         return o
 
@@ -167,6 +189,13 @@ def props(cfg, T, obs):
         return [("no current unit symbol is rewritten", obs["bad"] == [])]
     if cfg["k"] == "spelling_count":
         return [("the substitution list still yields legacy spellings to check", obs["n"] >= 40)]
+    if cfg["k"] == "token_meaning":
+        if obs["skip"]:
+            return [("every token of the substitution list has a known meaning or is a pure re-spelling", obs["known_token"] or cfg["legacy"] in ("Ns/m", "lbmole", "gmole"))]
+        from symx.core import zabs
+
+        return [("the current symbol a legacy token is rewritten to denotes the amount the token spells out (1000ft3 = 1000 ft3, M(m3) = 10^6 m3, k(ft3) = 10^3 ft3 ...)",
+                 zabs(term(obs["current"]) - term(obs["spelled"])) <= z3.RealVal("1/100000") * zabs(term(obs["spelled"])))]
     u, sp, x = cfg["u"], cfg["sp"], T["x"]
     db = get_db("default")
     qt, base = obs["qt_base"]
@@ -198,6 +227,8 @@ def props(cfg, T, obs):
         ("AddCategory stores current spellings (default and valid units)", d1 == u and v1 == want_valid and v2 == want_valid and v3 == [u]
          and d2 == (base_u if base_u in want_valid else u) and d3 == u),
         ("a category registered with legacy spellings is usable", bool(obs["addcat_use"])),
+        ("Scalar(category, unit=legacy) without a value carries the category default like the current spelling", z3.And(z3.BoolVal(bool(obs["default_in_legacy"][0])),
+                                                                                                                   approx(obs["default_in_legacy"][1], from_base), approx(obs["default_in_legacy"][2], from_base))),
     ]
     if cfg.get("canary"):
         P.append(("canary:legacy->base conversion is the identity", approx(obs["convert"][0], x)))
